@@ -9,9 +9,9 @@ TECH = ("repo-specific static analysis: AST + statement CFG, reaching definition
 TEXT = {
  'C01': ("Encoder and decoder agree, per mode and out-degree, on the live-arc predicate, the dispatch table, the digit<->arc selection and its inverse, radix, digit order and alphabet; every walk step follows a live arc; look-ahead on the message cursor is guarded; the check is taken over the emitted strand and is defined for the empty strand. The round-trip equality itself is not executed or proved.",
          "calculus_* helpers exact (C15, not decided); numpy where/argsort semantics; analyser tables", "4 C01"),
- 'C02': ("Mask = filter verdict for all 4^k k-mers; arcs only between accepted vertices in the column of the appended letter; the encoder only follows stored live arcs, so every window of start k-mer + strand is an accepted vertex; ordering table of the built-in filter's constructor. The equivalence whole-sequence <=> window conjunction is not decided.",
+ 'C02': ("Mask = filter verdict for all 4^k k-mers; arcs only between accepted vertices in the column of the appended letter; the encoder only follows stored live arcs, so every window of start k-mer + strand is an accepted vertex; ordering table of the built-in filter's constructor; for the built-in filter the structural necessary conditions of sentence 2 (all windows enumerated, every check reads the selected string, no rule skipped); no state survives a call in the closure. The equivalence whole-sequence <=> window conjunction on strings is not evaluated.",
          "filter verdict is a function of its argument; successor closed forms (R-SHIFT)", "4 C02"),
- 'C03': ("Only ValueError escapes graph generation (incl. networkx), the mask is never written, the observed length is plumbed to every neighbour computation, keep-iff->=t in both trimmers, both trimming loops feed their result back and stop only on no change, the pruning loop's exit is not decided from one arbitrary cycle, the vertex description is recomputed after the last removal. Maximality and monotonicity are fixed-point semantics over run-time data and are not decided.",
+ 'C03': ("Only ValueError escapes graph generation (incl. networkx), the mask is never written, the observed length is plumbed to every neighbour computation, keep-iff->=t in both trimmers, both trimming loops feed their result back and stop only on no change, the pruning loop's exit is not decided from one arbitrary cycle, the cycle-search graph holds only out-degree-1 arcs and is rebuilt after every removal, the cascade clears the arcs of the right predecessors, remove_useless keeps only surviving keys, the vertex description is recomputed after the last removal, no state survives a call. Maximality and monotonicity are fixed-point semantics over run-time data and are not decided.",
          "networkx find_cycle contract (one cycle or NetworkXNoCycle)", "4 C03"),
  'C04': ("The strand is a walk; the out-degree error is raised only at dead vertices (and out-degree 3 in fast mode); every branching step strictly decreases the loop variant, which is written only in the information arm. Termination on out-degree-1 chains and the length bounds depend on the generated graph (C03's undecided part) and are not decided.",
          "C03's semantic guarantee for out-degree-1 chains", "4 C04"),
